@@ -7,7 +7,8 @@ paths that go through plain attributes and builtin containers only."""
 
 FEATURES = ['property', 'nondata_desc', 'data_desc', 'slots', 'meta_property', 'meta_desc',
             'getattr', 'getattribute', 'dir', 'getitem', 'iter', 'next', 'call', 'len', 'bool',
-            'classattr', 'instattr', 'nested', 'method', 'sub_builtin_desc', 'getdel_desc']
+            'classattr', 'instattr', 'nested', 'method', 'sub_builtin_desc', 'getdel_desc',
+            'cm_property', 'meta_shadowed']
 
 PRELUDE = '''
 import collections, types
@@ -89,6 +90,20 @@ class Pair(LoggedTuple):
 
 class PlainRows(list):
     pass
+
+# subclasses of builtin containers whose __iter__ is user code
+class IterList(list):
+    def __iter__(self):
+        COUNTER[('IterList', '__iter__')] += 1
+        return list.__iter__(self)
+
+class IterRows(IterList):
+    pass
+
+class IterTuple(tuple):
+    def __iter__(self):
+        COUNTER[('IterTuple', '__iter__')] += 1
+        return tuple.__iter__(self)
 '''
 
 
@@ -133,6 +148,14 @@ def gen_class(rnd, name, base, feats, meta=None):
         # an instance __dict__ entry shadowed by the data descriptor of the same name
         init += ["        self.__dict__['gd'] = 12345"]
     body += init or ['        pass']
+    if 'cm_property' in feats:
+        # @classmethod on top of @property: the classmethod hands the access on (Python 3.9-3.12)
+        body += ['    @classmethod', '    @property', '    def cprop(cls):',
+                 "        COUNTER[('%s', 'property')] += 1" % name, '        return Leaf()']
+    if 'meta_shadowed' in feats and meta:
+        # class attributes spelled like a property / data descriptor of the metaclass (which win)
+        body += ["    mprop = 'class attribute shadowed by the metaclass property'",
+                 "    mdd = 'class attribute shadowed by the metaclass data descriptor'"]
     if 'property' in feats:
         body += ['    @property', '    def prop(self):', "        COUNTER[('%s', 'property')] += 1" % name,
                  '        return Leaf()']
@@ -181,6 +204,7 @@ def gen_source(rnd, nclasses=3):
                       '        return 1']
             if 'meta_desc' in feats:
                 L.append("    mnd = NonData('%s.mnd')" % meta)
+                L.append("    mdd = Data('%s.mdd')" % meta)
             L.append('    def meta_method(cls): return 2')
             L.append('')
         base = None
@@ -227,7 +251,10 @@ def gen_source(rnd, nclasses=3):
     L.append('sub_pair = Pair((Leaf(), 2))')
     L.append('sub_plain = PlainRows([Leaf(), 3])')
     L.append("sub_box = {'rows': Rows([Leaf()]), 'both': [Table(k=1), Pair((Leaf(),))]}")
-    objects += ['box', 'ns_obj', 'sub_direct', 'sub_rows', 'sub_table', 'sub_pair', 'sub_plain', 'sub_box']
+    L.append('sub_iter = IterList([Leaf(), 1])')
+    L.append("sub_iterbox = {'it': IterRows([Leaf()]), 'tup': [IterTuple((Leaf(), 2))]}")
+    objects += ['box', 'ns_obj', 'sub_direct', 'sub_rows', 'sub_table', 'sub_pair', 'sub_plain', 'sub_box',
+                'sub_iter', 'sub_iterbox']
     # (items of a *subclass* of a builtin container are not claimed by the plain-path clause)
     plain += [("box['objs'][0]", classes[0][0], 'instance'), ("box['tup'][0]", classes[0][0], 'instance'),
               ('ns_obj.leaf', 'Leaf', 'instance'), ('ns_obj.first', classes[0][0], 'instance')]
